@@ -450,6 +450,10 @@ func Predict(mw *ModelWorld, stack []int, step Step, fire bool) (p *Prediction) 
 			p.Discard = d.why
 		}
 	}()
+	if step.PreCancel {
+		x.rootCancelled = true
+		x.act("pre-cancelled")
+	}
 	r := x.run(0)
 	p.Val, p.Err, p.SuccessAll = r.val, r.err, r.successAll
 	p.Attempts, p.Executions, p.Retries = x.attempts, x.executions, x.retries
